@@ -113,7 +113,16 @@ pub fn exec(c: &Case) -> Outcome {
     };
     let fmax = crate::checks::c02::negotiated(c.frame_max, 131072);
     let payload_max = fmax as usize - 8;
-    let need_other = c.ops.iter().any(|o| matches!(o, Op::Settle { cross_channel: true, .. }));
+    let need_other = c.ops.iter().any(|o| {
+        matches!(o, Op::Settle { cross_channel: true, .. })
+            || matches!(
+                o,
+                Op::ExchangeBind { via: crate::ops::ExVia::OnDestinationArgOnOtherChannel, .. }
+                    | Op::ExchangeBind { via: crate::ops::ExVia::OnSourceArgOnOtherChannel, .. }
+                    | Op::ExchangeUnbind { via: crate::ops::ExVia::OnDestinationArgOnOtherChannel, .. }
+                    | Op::ExchangeUnbind { via: crate::ops::ExVia::OnSourceArgOnOtherChannel, .. }
+            )
+    });
     let case = c.clone();
     let res = timed(CALL_TIMEOUT * 4, "avh-c12", move || {
         let chan = conn.open_channel(None).map_err(|e| format!("{:?}", e))?;
@@ -263,7 +272,7 @@ fn enumerate(_t: Tier) -> Vec<Case> {
 pub fn parts() -> Vec<Box<dyn PartDyn>> {
     vec![Box::new(Part::<Case> {
         name: "e2e",
-        rule: "programs of 1-13 ops drawn from every public entry point of Channel/Queue/Exchange/Consumer/Delivery/Get (all wrapper levels, all boolean options, arbitrary short strings, field tables, numerics; settle ops through Delivery/Get/Consumer on the same and on a different channel, all 48 settle variants also enumerated) run on the mock transport against a deterministic broker; oracle: an independently written expectation table maps each op to the exact method frames (and the return value) it must produce, the decoded wire per channel must equal their concatenation, cross-channel settles must panic and send nothing; every executed case is non-trivial, the class table counts entry point x flag vector pairs; distinct by case hash",
+        rule: "programs of 1-13 ops drawn from every public entry point of Channel/Queue/Exchange/Consumer/Delivery/Get (all wrapper levels, all boolean options, arbitrary short strings, field tables, numerics; exchange-to-exchange bind/unbind through Channel and through either Exchange handle, the handle passed as argument obtained on the same or on another channel; settle ops through Delivery/Get/Consumer on the same and on a different channel, all 48 settle variants also enumerated) run on the mock transport against a deterministic broker; oracle: an independently written expectation table maps each op to the exact method frames (and the return value) it must produce, the decoded wire per channel must equal their concatenation, cross-channel settles must panic and send nothing; every executed case is non-trivial, the class table counts entry point x flag vector pairs; distinct by case hash",
         cases: |t| t.pick(3000, 60_000),
         threads: 16,
         strategy: strat,
